@@ -79,7 +79,17 @@ let drv side f =
       let (_, w), r = unopt (ss_drive_all script data) in
       Printf.sprintf "%s | %s" (show_res r) (hexo w.w_received)
 
+let drvv side f =
+  match side with
+  | `Spec -> "N/A"
+  | `Model ->
+      let script = parse_script (List.nth f 0) in
+      let bufs = List.map (fun h -> nlist (unhex h)) (String.split_on_char '/' (List.nth f 1)) in
+      let (_, w), r = unopt (ss_drive_v_all script bufs) in
+      Printf.sprintf "%s | %s" (show_res r) (hexo w.w_received)
+
 let () =
+  register "drvv" drvv;
   register "strm" strm;
   register "drv" drv;
   register "drvn" drv
